@@ -1400,6 +1400,17 @@ def getattr_value(I_, obj, name, st, ctx, k, node=None):
       raise Unsupported("loop annotation refers to local %r, which the function under contract does not have: "
                         "the annotation does not apply to this code" % name)
     return I_.raise_exc(st, ctx, AttributeError, "loop view: no local " + name, node)
+  if isinstance(obj, tuple) and type(obj) is not tuple and hasattr(type(obj), "_fields"):
+    # namedtuple instance: field access, and properties / methods a repository subclass adds
+    tcls = type(obj)
+    if name in tcls._fields:
+      return k(st, tuple.__getitem__(obj, tcls._fields.index(name)))
+    f = I_.class_lookup(tcls, name)
+    if isinstance(f, property) and isinstance(f.fget, types.FunctionType):
+      return I_.call_value(f.fget, [obj], {}, st, ctx, k, node)
+    if isinstance(f, types.FunctionType) and I_.is_repo_function(f):
+      return k(st, I_.bind(f, obj, tcls))
+    return k(st, BuiltinMethod(name, obj))
   if is_sym(obj) or isinstance(obj, tuple):
     if isinstance(obj, tuple) or name.startswith("__"):
       return k(st, BuiltinMethod(name, obj))
@@ -2199,6 +2210,27 @@ def instantiate(I_, cls, args, kws, st, ctx, k, node):
         # exception classes with their own __init__: keep args, do not interpret
         pass
     return k(st, ExcVal(cls, args, where=I_.where(ctx, node)))
+  if is_repo_class(I_, cls) and issubclass(cls, tuple) and hasattr(cls, "_fields") \
+      and not any(isinstance(c.__dict__.get(n), types.FunctionType) for c in cls.__mro__ if is_repo_class(I_, c) for n in ("__new__", "__init__")):
+    # a namedtuple (or a repository subclass of one that adds only properties / methods): a real instance whose elements may
+    # be symbolic terms; it behaves as a tuple everywhere else in the evaluator
+    fields = list(cls._fields)
+    if len(args) > len(fields) or any(n not in fields for n in kws):
+      return I_.raise_exc(st, ctx, TypeError, "%s() takes %d fields" % (cls.__name__, len(fields)), node)
+    vals = list(args) + [None] * (len(fields) - len(args))
+    given = [True] * len(args) + [False] * (len(fields) - len(args))
+    for n, v in kws.items():
+      i = fields.index(n)
+      if given[i]:
+        return I_.raise_exc(st, ctx, TypeError, "%s() got multiple values for field %s" % (cls.__name__, n), node)
+      vals[i], given[i] = v, True
+    defaults = getattr(cls, "_field_defaults", {}) or {}
+    for i, n in enumerate(fields):
+      if not given[i]:
+        if n not in defaults:
+          return I_.raise_exc(st, ctx, TypeError, "%s() missing field %s" % (cls.__name__, n), node)
+        vals[i] = defaults[n]
+    return k(st, tuple.__new__(cls, vals))
   if is_repo_class(I_, cls):
     for base in cls.__mro__:
       if base in (list, dict, set, tuple, bytes, str, int, frozenset) or \
